@@ -316,7 +316,7 @@ func checkCmd(opts *RunOpts, args []string) int {
 	witnessCache := map[string]bool{}
 	var unsatCore []string
 	cexCache := map[string]*Cex{}
-	var cov_order, cov_rel, cov_neg, cov_q, cov_d, cov_f, cov_w, cov_su, cov_c map[string]any
+	var cov_order, cov_rel, cov_neg, cov_q, cov_d, cov_f, cov_w, cov_su, cov_c, cov_s map[string]any
 
 	for _, res := range run.Results {
 		if res.Trusted {
@@ -565,6 +565,15 @@ func checkCmd(opts *RunOpts, args []string) int {
 		}
 		cov_su = cv
 	}
+	if run.SRan {
+		_, vl, cv := boundedListVerdict(opts, prop, known, "bounded.handlers.sequence", "none.txt", run.SFailing, run.STotal,
+			"states A, B and the Multi state M with a handler bound for every handler name; every history of up to 2 mutations over Add/Remove/Set of each state and Add{A,M}",
+			"", "run handlers out of the documented sequence (Exit, Enter, self, state-state, AnyEnter, End, State, AnyState; exactly the documented handlers per phase)", nil)
+		if vl != "" {
+			violations = append(violations, vl)
+		}
+		cov_s = cv
+	}
 	if run.CRan {
 		_, vl, cv := boundedListVerdict(opts, prop, known, "bounded.clock.views", "none.txt", run.CFailing, run.CTotal,
 			"schema A, B (Multi), C (Removes A), D (Adds B, Requires A); every history of up to 3 (thorough: 4) mutations over Add/Remove/Set of each state, Add{A,B}, CanAdd, CanRemove; variants: no handlers, vetoing CEnter, panicking AEnter, panicking BState",
@@ -671,6 +680,9 @@ func checkCmd(opts *RunOpts, args []string) int {
 	}
 	if cov_rel != nil {
 		cov["bounded_relations_standin"] = cov_rel
+	}
+	if cov_s != nil {
+		cov["bounded_handler_sequence_standin"] = cov_s
 	}
 	if cov_c != nil {
 		cov["bounded_clock_standin"] = cov_c
